@@ -88,7 +88,7 @@ theorem swizzle_inverse (dflt : ν) (r k : Nat) (g g' : List Nat)
     merge function, returns a well-formed fiber, and every point has moved to its image
     `joinTop` — its first `l+2` coordinates combined, everything else untouched, order preserved.
     Stated for tensor default 0 (`z = dflt`) and the non-linear code path. -/
-theorem flatten_content (comb : Nat → κ → κ → κ) (mf : List ν → Option ν) (dflt : ν) (r l : Nat)
+theorem flatten_content_partial (comb : Nat → κ → κ → κ) (mf : List ν → Option ν) (dflt : ν) (r l : Nat)
     (f : Tree κ ν (r + 2 + l)) (hw : WF (r + 2 + l) f) (hm : monoLvB comb dflt r l f = true) :
     mergeLv false dflt comb mf dflt r l f = some (flatLv comb dflt r l f) ∧
     content dflt (r + 1) (flatLv comb dflt r l f) =
@@ -159,21 +159,22 @@ theorem lexSplit_coord : LexSplit (κ := List α) (fun c => c.take 1) (fun c => 
 
 /-- **The tuple and pair styles never collide**: on every well-formed tree whose ranks hold
     coordinates of uniform arity (`UpperAr`; arity 1 = integer coordinates) the hypothesis of
-    `flatten_content` holds, for any number of levels and any payload depth. -/
+    `flatten_content_partial` holds, for any number of levels and any payload depth. -/
 theorem flatten_tuple_mono (dflt : ν) (r l : Nat) (ar : List Nat) (f : Tree (List α) ν (r + 2 + l))
-    (hw : WF (r + 2 + l) f) (har : UpperAr r l ar f) :
+    (hw : WF (r + 2 + l) f) (har : upperArB r l ar f = true) :
     monoLvB (tupleComb (α := α)) dflt r l f = true :=
-  (monoLvB_iff _ dflt r l f).2 (monoLv_tuple dflt r l ar f hw har)
+  (monoLvB_iff _ dflt r l f).2 (monoLv_tuple dflt r l ar f hw ((upperArB_iff r l ar f).1 har))
 
 /-- **Unflatten inverts flatten** (tuple / pair style, any number of levels, any payload depth):
     for a well-formed non-empty tree with integer coordinates on the flattened ranks,
     unflattening the flattened fiber succeeds, is well-formed and has the original's content
     (explicit defaults and empty sub-fibers of the flattened ranks are not re-created). -/
 theorem unflatten_flatten (dflt : ν) (r l : Nat) (f : Tree (List α) ν (r + 2 + l))
-    (hw : WF (r + 2 + l) f) (har : UpperAr r l (List.replicate (l + 1) 1) f)
+    (hw : WF (r + 2 + l) f) (har' : upperArB r l (List.replicate (l + 1) 1) f = true)
     (hne : isEmpty dflt (r + 2 + l) f = false) :
     ∃ g, unflatLv (fun c => c.take 1) (fun c => c.drop 1) r l (flatLv (tupleComb (α := α)) dflt r l f) = some g ∧
       WF (r + 2 + l) g ∧ content dflt (r + 2 + l) g = content dflt (r + 2 + l) f := by
+  have har := (upperArB_iff r l _ f).1 har'
   have hm := monoLv_tuple dflt r l _ f hw har
   have hwf := flatLv_wf (tupleComb (α := α)) dflt r l f hw hm
   have hc := content_flatLv (tupleComb (α := α)) dflt r l f
@@ -198,10 +199,34 @@ theorem unflatten_flatten (dflt : ν) (r l : Nat) (f : Tree (List α) ν (r + 2 
   show (splitTop _ _ l (joinTop tupleComb l p), v) = (p, v)
   rw [(splitTop_joinTop l p (by omega) hone).1]
 
-/-- the top two ranks hold integer coordinates -/
-def Int2 (r : Nat) (f : Tree (List α) ν (r + 2)) : Prop :=
-  ∀ e ∈ (show List (List α × Tree (List α) ν (r + 1)) from f), e.1.length = 1 ∧
-    ∀ x ∈ (show List (List α × Tree (List α) ν r) from e.2), x.1.length = 1
+/-- **Flatten at every depth** (Tensor.flattenRanks(depth=k, levels=l+1, tuple / pair style)) —
+    partial: stated for tensor default 0 (`z = dflt`) and for trees on which the active-range
+    bookkeeping of `_mergeRanksHelper` does not raise (`actNest`; it never does for levels ≤ 2).
+    Then, for every depth `k`, every number of levels and every payload depth `r`, on every
+    well-formed tree with coordinates of uniform arity on the flattened ranks: the transform
+    succeeds, the result is well-formed, and every point has moved to its image (the coordinates
+    `k … k+l+1` concatenated, all others untouched), nothing else changes, order preserved. -/
+theorem flattenT_tuple_content_partial (mf : List ν → Option ν) (dflt : ν) (r l k : Nat) (ar : List Nat)
+    (t : Tree (List α) ν (r + 2 + l + k)) (hw : WF (r + 2 + l + k) t)
+    (har : (subsAt (r + 2 + l) k t).all (fun s => upperArB r l ar s && (actNest r l s).isSome) = true) :
+    ∃ t', mergeT true false dflt (tupleComb (α := α)) mf dflt r l k t = some t' ∧ WF (r + 1 + k) t' ∧
+      content dflt (r + 1 + k) t' =
+        (content dflt (r + 2 + l + k) t).map (fun pv => (liftN (joinTop (tupleComb (α := α)) l) k pv.1, pv.2)) := by
+  unfold mergeT
+  apply atDepth_spec_eq dflt dflt (r + 2 + l) (r + 1) _ (joinTop (tupleComb (α := α)) l) k t hw
+  intro s hs hws
+  have hs' := List.all_eq_true.1 har s hs
+  rw [Bool.and_eq_true] at hs'
+  have hm := monoLv_tuple dflt r l ar s hws ((upperArB_iff r l ar s).1 hs'.1)
+  refine ⟨flatLv (tupleComb (α := α)) dflt r l s, ?_, flatLv_wf _ dflt r l s hws hm, content_flatLv _ dflt r l s⟩
+  unfold mergeLvA
+  have : (actNest r l s).isNone = false := by
+    cases h : actNest r l s with
+    | none => rw [h] at hs'; simp at hs'
+    | some _ => rfl
+  rw [this]
+  simp only [Bool.and_false, Bool.false_eq_true, if_false]
+  exact mergeLv_mono _ mf dflt r l s hm
 
 /-- **Swap is the adjacent swizzle.**  `Fiber.swapRanks` (flatten with style pair, sort on the
     reversed pair, unflatten) on a well-formed non-empty fiber with integer coordinates on its top
@@ -209,9 +234,10 @@ def Int2 (r : Nat) (f : Tree (List α) ν (r + 2)) : Prop :=
     coordinates of every point exchanged — the specification of `swizzle` for the permutation
     `[1, 0]`; payloads at any depth `r` below. -/
 theorem swap_is_adjacent_swizzle (dflt : ν) (r : Nat) (f : Tree (List α) ν (r + 2))
-    (hw : WF (r + 2) f) (hint : Int2 r f) (hne : isEmpty dflt (r + 2) f = false) :
+    (hw : WF (r + 2) f) (hint' : int2B r f = true) (hne : isEmpty dflt (r + 2) f = false) :
     ∃ g, swapFiber (fun a b => a ++ b) List.reverse (fun c => c.take 1) (fun c => c.drop 1) dflt r f = some g ∧
       WF (r + 2) g ∧ content dflt (r + 2) g = swizzleSpec [1, 0] (content dflt (r + 2) f) := by
+  have hint := (int2B_iff r f).1 hint'
   have hmono : Sorted (show List (List α × Tree (List α) ν r) from flat2 (fun a b => a ++ b) dflt r f) :=
     monoLv_tuple dflt r 0 [1] f hw (fun e he => (hint e he).1)
   obtain ⟨g, hg, hgw, hgc⟩ := swapFiber_spec (fun a b => a ++ b) List.reverse _ _ (lexSplit_list (α := α))
@@ -236,6 +262,53 @@ theorem swap_is_adjacent_swizzle (dflt : ν) (r : Nat) (f : Tree (List α) ν (r
   match e.1, x.1, h1, h2 with
   | [a], [b], _, _ => rfl
 
+/-- **Swap at every depth** (Tensor.swapRanks(depth=k)) — partial: stated for trees in which no
+    fiber at depth `k` is empty (with an empty one next to a non-empty one the implementation
+    raises `AssertionError` — open finding).  Then for every `k` and every payload depth `r`, on
+    every well-formed tree with integer coordinates on ranks `k`, `k+1`: the transform succeeds,
+    the result is well-formed and its content is the original's with coordinates `k` and `k+1` of
+    every point exchanged, in ascending order. -/
+theorem swapT_content_partial (dflt : ν) (r k : Nat) (t : Tree (List α) ν (r + 2 + k)) (hw : WF (r + 2 + k) t)
+    (hsome : allEmptyAt dflt (r + 1) k t = false)
+    (hsub : (subsAt (r + 2) k t).all (fun s => int2B r s && !isEmpty dflt (r + 2) s) = true) :
+    ∃ t', swapT (fun a b => a ++ b) List.reverse (fun c => c.take 1) (fun c => c.drop 1) dflt r k t = some t' ∧
+      WF (r + 2 + k) t' ∧
+      content dflt (r + 2 + k) t' = isort (κ := List (List α))
+        ((content dflt (r + 2 + k) t).map (fun pv => (liftN (permPoint [1, 0]) k pv.1, pv.2))) := by
+  unfold swapT
+  rw [hsome]
+  simp only [Bool.false_eq_true, if_false]
+  apply transform_at_depth_sorted dflt dflt (r + 2) (r + 2) _ (permPoint [1, 0]) k t hw
+  intro s hs hws
+  have hs' := List.all_eq_true.1 hsub s hs
+  rw [Bool.and_eq_true] at hs'
+  obtain ⟨g, hg, hgw, hgc⟩ := swap_is_adjacent_swizzle dflt r s hws hs'.1 (by simpa using hs'.2)
+  refine ⟨g, hg, hgw, ?_⟩
+  rw [hgc]
+  exact isort_perm _
+
+/-- **Unflatten at every depth** (Tensor.unflattenRanks(depth=k, levels=l+1)) — partial: stated
+    for trees in which no fiber at depth `k` is without elements (otherwise `IndexError` — open
+    finding) and for the tree only (the result tensor's default is not carried over — open
+    finding).  Then for every `k`, `l`, `r`: success, a well-formed result, every point moved to
+    its image (coordinate `k` split into `l+2` coordinates), order preserved. -/
+theorem unflattenT_content_partial (dflt : ν) (r l k : Nat) (t : Tree (List α) ν (r + 1 + k))
+    (hw : WF (r + 1 + k) t) (hsome : allEmptyAt dflt r k t = false)
+    (hsub : (subsAt (r + 1) k t).all
+      (fun s => !(show List (List α × Tree (List α) ν r) from s).isEmpty) = true) :
+    ∃ t', unflattenT (fun c => c.take 1) (fun c => c.drop 1) dflt r l k t = some t' ∧
+      WF (r + 2 + l + k) t' ∧
+      content dflt (r + 2 + l + k) t' = (content dflt (r + 1 + k) t).map
+        (fun pv => (liftN (splitTop (fun c => c.take 1) (fun c => c.drop 1) l) k pv.1, pv.2)) := by
+  unfold unflattenT
+  rw [hsome]
+  simp only [Bool.false_eq_true, if_false]
+  apply transform_at_depth dflt dflt (r + 1) (r + 2 + l) _ _ k t hw
+  intro s hs hws
+  have hs' := List.all_eq_true.1 hsub s hs
+  exact unflatLv_spec dflt _ _ (lexSplit_list (α := α)) r l s
+    (fun h => by rw [h] at hs'; simp at hs') hws
+
 end tuples
 
 /-! ### flattening a split with absolute coordinates restores the original -/
@@ -249,11 +322,11 @@ variable {ν : Type} [DecidableEq ν]
     (`splitFiber`, halo 0, absolute coordinates) succeeds, and merging its two ranks with the
     absolute style — `flattenRanks(coord_style="absolute")`, raising merge function — returns
     exactly the presented elements of the original, hence the original's content. -/
-theorem flattenAbs_split_id (step as ae : Int) (hstep : 0 < step) (hact : as < ae) (dflt : ν) (r : Nat)
+theorem flattenAbs_split_id (step as ae : Int) (hstep : 0 < step) (hact : as < ae) (z dflt : ν) (r : Nat)
     (f : Tree Int ν (r + 1)) (hw : WF (r + 1) f)
     (hin : ∀ e ∈ present dflt r f, as ≤ e.1 ∧ e.1 < ae) :
     ∃ u, splitFiber { op := .uniform step, act := some (as, ae) } dflt r f = some u ∧
-      merge2 (fun _ c => c) mfRaise dflt dflt r u = some (show Tree Int ν (r + 1) from present dflt r f) ∧
+      merge2 (fun _ c => c) mfRaise z dflt r u = some (show Tree Int ν (r + 1) from present dflt r f) ∧
       content dflt (r + 1) (show Tree Int ν (r + 1) from present dflt r f) = content dflt (r + 1) f := by
   have hps : Sorted (present dflt r f) := present_sorted hw.1
   have hsplit : splitFiberParts { op := .uniform step, act := some (as, ae) } dflt r f =
@@ -303,12 +376,117 @@ theorem flattenAbs_split_id (step as ae : Int) (hstep : 0 < step) (hact : as < a
       apply List.map_congr_left
       intro x _; rfl
     unfold merge2
-    rw [merge2T_sorted (fun _ c => c) mfRaise dflt dflt r _ (by rw [hflat]; exact hps)]
+    rw [merge2T_sorted (fun _ c => c) mfRaise z dflt r _ (by rw [hflat]; exact hps)]
     show some (untag (tagWith dflt _)) = _
     rw [untag_tagWith, hflat]
     rfl
   · exact (content_present dflt r f).symm ▸ rfl
 
 end split
+
+/-! ### the hypotheses are satisfiable by non-trivial values (and what the theorems then say) -/
+
+namespace C09.Ex
+abbrev TI := Tree Int Int
+abbrev TC := Tree Coord Int
+
+/-- ranks A,B,C with an explicit default (A=1,B=0,C=1), an empty C fiber (A=1,B=3) and an empty
+    B fiber (A=2) -/
+def tI : TI 3 := show List (Int × TI 2) from
+  [(0, show List (Int × TI 1) from [(0, show List (Int × TI 0) from [(0, (1 : Int)), (2, (2 : Int))]),
+                                     (1, show List (Int × TI 0) from [(1, (3 : Int))])]),
+   (1, show List (Int × TI 1) from [(0, show List (Int × TI 0) from [(0, (4 : Int)), (1, (0 : Int))]),
+                                     (3, show List (Int × TI 0) from [])]),
+   (2, show List (Int × TI 1) from [])]
+
+/-- the same tensor with its integer coordinates as 1-tuples -/
+def tC : TC 3 := show List (Coord × TC 2) from
+  [([0], show List (Coord × TC 1) from [([0], show List (Coord × TC 0) from [([0], (1 : Int)), ([2], (2 : Int))]),
+                                        ([1], show List (Coord × TC 0) from [([1], (3 : Int))])]),
+   ([1], show List (Coord × TC 1) from [([0], show List (Coord × TC 0) from [([0], (4 : Int)), ([1], (0 : Int))]),
+                                        ([3], show List (Coord × TC 0) from [])]),
+   ([2], show List (Coord × TC 1) from [])]
+
+def mkC1 (l : List (Coord × Int)) : TC 1 := l
+def mkI1 (l : List (Int × Int)) : TI 1 := l
+
+theorem tI_wf : WF 3 tI := (wfB_iff 3 tI).1 (by decide)
+theorem tC_wf : WF 3 tC := (wfB_iff 3 tC).1 (by decide)
+
+-- swizzle (A,B,C) → (C,A,B)
+example : content (0 : Int) 3 (swizzle 0 2 [2, 0, 1] tI) = swizzleSpec [2, 0, 1] (content (0 : Int) 3 tI) :=
+  (swizzle_content (0 : Int) 0 2 [2, 0, 1] (by decide) tI tI_wf).2
+example : content (0 : Int) 3 (swizzle 0 2 [2, 0, 1] tI) =
+    [([0, 0, 0], 1), ([0, 1, 0], 4), ([1, 0, 1], 3), ([2, 0, 0], 2)] := by decide
+-- … and back with (B,C,A)
+example : content (0 : Int) 3 (swizzle 0 2 [1, 2, 0] (swizzle 0 2 [2, 0, 1] tI)) = content (0 : Int) 3 tI :=
+  (swizzle_inverse (0 : Int) 0 2 [2, 0, 1] [1, 2, 0] (by decide) (by decide)
+    (fun p hp => by
+      match p, hp with
+      | [a, b, c], _ => rfl) tI tI_wf).2
+
+-- flatten all three ranks (levels = 2), tuple style
+example : mergeLv false (0 : Int) (tupleComb (α := Int)) mfRaise 0 0 1 tC =
+    some (mkC1 [([0, 0, 0], 1), ([0, 0, 2], 2), ([0, 1, 1], 3), ([1, 0, 0], 4)]) :=
+  ((flatten_content_partial (tupleComb (α := Int)) mfRaise (0 : Int) 0 1 tC tC_wf
+    (flatten_tuple_mono (0 : Int) 0 1 [1, 1] tC tC_wf (by decide))).1).trans (by decide)
+
+-- unflatten inverts it
+example : ∃ g, unflatLv (fun c => c.take 1) (fun c => c.drop 1) 0 1
+      (flatLv (tupleComb (α := Int)) (0 : Int) 0 1 tC) = some g ∧ WF 3 g ∧
+      content (0 : Int) 3 g = content (0 : Int) 3 tC :=
+  unflatten_flatten (0 : Int) 0 1 tC tC_wf (by decide) (by decide)
+
+-- unflatten of a directly built fiber with 2-tuple coordinates, an explicit default kept
+example : ∃ g, unflatLv (fun c => c.take 1) (fun c => c.drop 1) 0 0
+      (mkC1 [([0, 1], 5), ([0, 2], 0), ([1, 0], 7)]) = some g ∧ WF 2 g ∧
+      content (0 : Int) 2 g = [([[0], [1]], 5), ([[1], [0]], 7)] :=
+  unflatten_content (0 : Int) _ _ lexSplit_coord 0 0 _ (by decide) ((wfB_iff 1 _).1 (by decide))
+
+-- swap A and B
+example : ∃ g, swapFiber (fun a b => a ++ b) List.reverse (fun c => c.take 1) (fun c => c.drop 1) (0 : Int) 1 tC = some g ∧
+      WF 3 g ∧ content (0 : Int) 3 g = swizzleSpec [1, 0] (content (0 : Int) 3 tC) :=
+  swap_is_adjacent_swizzle (0 : Int) 1 tC tC_wf (by decide) (by decide)
+example : swizzleSpec [1, 0] (content (0 : Int) 3 tC) =
+    [([[0], [0], [0]], 1), ([[0], [0], [2]], 2), ([[0], [1], [0]], 4), ([[1], [0], [1]], 3)] := by decide
+
+-- split the leaf rank of a fiber uniformly by 2, flatten with absolute coordinates
+example : ∃ u, splitFiber { op := .uniform 2, act := some (0, 6) } (0 : Int) 0
+      (mkI1 [(0, 1), (1, 0), (3, 2), (4, 5)]) = some u ∧
+      merge2 (fun _ c => c) mfRaise (0 : Int) 0 0 u = some (mkI1 [(0, 1), (3, 2), (4, 5)]) ∧
+      content (0 : Int) 1 (mkI1 [(0, 1), (3, 2), (4, 5)]) =
+        content (0 : Int) 1 (mkI1 [(0, 1), (1, 0), (3, 2), (4, 5)]) :=
+  flattenAbs_split_id 2 0 6 (by decide) (by decide) (0 : Int) (0 : Int) 0 _ ((wfB_iff 1 _).1 (by decide))
+    (by decide)
+
+-- every depth: flatten ranks B,C below rank A (depth = 1); the empty B fiber at A=2 stays
+example : ∃ t', mergeT true false (0 : Int) (tupleComb (α := Int)) mfRaise 0 0 0 1 tC = some t' ∧ WF 2 t' ∧
+      content (0 : Int) 2 t' =
+        (content (0 : Int) 3 tC).map (fun pv => (liftN (joinTop (tupleComb (α := Int)) 0) 1 pv.1, pv.2)) :=
+  flattenT_tuple_content_partial mfRaise (0 : Int) 0 0 1 [1] tC tC_wf (by decide)
+example : (content (0 : Int) 3 tC).map (fun pv => (liftN (joinTop (tupleComb (α := Int)) 0) 1 pv.1, pv.2)) =
+    [([[0], [0, 0]], 1), ([[0], [0, 2]], 2), ([[0], [1, 1]], 3), ([[1], [0, 0]], 4)] := by decide
+
+-- swap B and C below A (depth = 1) on a tree without empty fibers at depth 1
+def tD : TC 3 := show List (Coord × TC 2) from
+  [([0], show List (Coord × TC 1) from [([0], mkC1 [([0], 1), ([2], 2)]), ([1], mkC1 [([0], 3)])]),
+   ([1], show List (Coord × TC 1) from [([5], mkC1 [([1], 4), ([2], 0)])])]
+example : ∃ t', swapT (fun a b => a ++ b) List.reverse (fun c => c.take 1) (fun c => c.drop 1) (0 : Int) 0 1 tD = some t' ∧
+      WF 3 t' ∧ content (0 : Int) 3 t' = isort (κ := List Coord)
+        ((content (0 : Int) 3 tD).map (fun pv => (liftN (permPoint [1, 0]) 1 pv.1, pv.2))) :=
+  swapT_content_partial (0 : Int) 0 1 tD ((wfB_iff 3 tD).1 (by decide)) (by decide) (by decide)
+example : isort (κ := List Coord)
+      ((content (0 : Int) 3 tD).map (fun pv => (liftN (permPoint [1, 0]) 1 pv.1, pv.2))) =
+    [([[0], [0], [0]], 1), ([[0], [0], [1]], 3), ([[0], [2], [0]], 2), ([[1], [1], [5]], 4)] := by decide
+
+-- unflatten rank 1 (2-tuples) below rank 0
+def tU : TC 2 := show List (Coord × TC 1) from
+  [([0], mkC1 [([0, 1], 5), ([1, 0], 0), ([1, 2], 6)]), ([3], mkC1 [([2, 2], 7)])]
+example : ∃ t', unflattenT (fun c => c.take 1) (fun c => c.drop 1) (0 : Int) 0 0 1 tU = some t' ∧ WF 3 t' ∧
+      content (0 : Int) 3 t' = (content (0 : Int) 2 tU).map
+        (fun pv => (liftN (splitTop (fun c => c.take 1) (fun c => c.drop 1) 0) 1 pv.1, pv.2)) :=
+  unflattenT_content_partial (0 : Int) 0 0 1 tU ((wfB_iff 2 tU).1 (by decide)) (by decide) (by decide)
+
+end C09.Ex
 
 end Ft
